@@ -505,6 +505,29 @@ func genC02Case(t *rapid.T) Case {
 	return c
 }
 
+// c02DirectedBrokenThenConcurrent: one transfer breaks off mid-body while many large bodies are in flight on several
+// workers, and more large bodies follow. Whatever the fetch path shares between captures (buffers, channels, verdict
+// variables) gets used by several captures at once right after an error path ran.
+func c02DirectedBrokenThenConcurrent(variant int) Case {
+	c := Case{Settings: Settings{Workers: 4, MaxAssets: 8, MaxRedirect: 2, MaxRetry: variant % 2, Seencheck: false, WARCPool: 1 + variant%2, Hosts: 2}, Site: map[string]*Resp{}}
+	for k := 1; k <= 5; k++ {
+		page := &Resp{Status: 200, Kind: "html", CType: "text/html", Framing: "cl", Size: 5000, BodySeed: int64(k)}
+		for i := 0; i < 9; i++ {
+			ref := fmt.Sprintf("h%d:/s%d/b%d.bin", (k+i)%2, k, i)
+			r := &Resp{Status: 200, Kind: "bin", CType: "image/png", Framing: []string{"cl", "cl", "chunked"}[(i+variant)%3], Size: 150000 + 10007*i + 1009*k, BodySeed: int64(100*k + i)}
+			if i == 1 && k <= 2 {
+				r.Fault = "truncate" // the transfer is cut in the middle of the body
+			}
+			c.Site[ref] = r
+			page.Assets = append(page.Assets, ref)
+		}
+		pref := fmt.Sprintf("h0:/s%d/p", k)
+		c.Site[pref] = page
+		c.Seeds = append(c.Seeds, SeedPlan{ID: fmt.Sprintf("seed-%d", k), Ref: pref, Prefix: fmt.Sprintf("/s%d/", k)})
+	}
+	return c
+}
+
 func TestVerif_C02_Finish(t *testing.T) {
 	defer veriflib.Flush()
 	if m := verifref.WARCSelfTest(); m != "" {
@@ -527,6 +550,15 @@ func TestVerif_C02_Finish(t *testing.T) {
 				c02TP.busy.Round(time.Millisecond), float64(c02TP.resp)/c02TP.busy.Seconds(), float64(c02TP.seeds)/c02TP.busy.Seconds())
 		}
 	}()
+	// one lifecycle per process (race-detector unit): even shards run the directed case only, odd shards one generated case
+	one := veriflib.N("C02_ONE_LIFECYCLE", 0, 0) > 0
+	if !one || veriflib.ShardIndex()%2 == 0 {
+		d := c02DirectedBrokenThenConcurrent(veriflib.ShardIndex())
+		veriflib.Guard("C02", "C02/finish", d, func() { propC02(t, d) })
+		if one {
+			return
+		}
+	}
 	rapid.Check(t, func(rt *rapid.T) {
 		c := genC02Case(rt)
 		veriflib.Guard("C02", "C02/finish", c, func() { propC02(c02TB{rt}, c) })
